@@ -1,18 +1,10 @@
 (* Expr.v — selection expressions: syntax (what read_getter builds) and evaluation (impl Get). *)
-From Jawk Require Import Base F64 Json Ctx Printer.
+From Jawk Require Import Base F64 Json Ctx Printer Fn FunBase FunsColl FunsNum FunsNas.
 Local Open Scope N_scope.
 
 Inductive sel := SKey (k : str) | SIdx (i : N).
 Inductive ictx_kind := IIndex | IIndexInFile | IFileName | IStartLine | IEndLine | IStartChar | IEndChar.
 
-(* functions with a model; every other name of the generated table is FOpaque *)
-Inductive fn :=
-| FGet | FSize | FIf | FDefault | FPipe
-| FEq | FNeq | FLt | FLte | FGt | FGte
-| FAnd | FOr | FNot | FXor
-| FMap | FFilter | FFlatMap | FFold | FGroupBy | FSortBy
-| FSet | FDefine | FAt | FColon
-| FOpaque (name : str).
 
 Inductive expr :=
 | EExtract (ups : nat) (path : option (list sel))     (* None = the whole input *)
@@ -43,8 +35,6 @@ Definition extract (ups : nat) (path : option (list sel)) (c : ctx) : option jso
   let i := parent_input c ups in
   match path with None => Some i | Some p => path_extract p i end.
 
-Definition jnat (n : nat) : json := JNum (NPos (N.of_nat n)).
-Definition jN (n : N) : json := JNum (NPos n).
 
 Definition ictx_get (k : ictx_kind) (c : ctx) : option json :=
   match ic c with
@@ -62,18 +52,6 @@ Definition ictx_get (k : ictx_kind) (c : ctx) : option json :=
   end.
 
 (* ---------- functions whose value depends only on the values of their arguments ---------- *)
-Definition jcmpS := jcmp show.
-Definition ojcmp (a b : option json) : comparison :=      (* Option<JsonValue>::cmp *)
-  match a, b with
-  | None, None => Eq | None, Some _ => Lt | Some _, None => Gt
-  | Some x, Some y => jcmpS x y
-  end.
-
-Definition usize_of (v : option json) : option N :=        (* TryInto::<usize> of a Number *)
-  match v with Some (JNum (NPos n)) => Some n | _ => None end.
-
-Definition arg (vals : list (option json)) (i : nat) : option json :=
-  match nth_error vals i with Some v => v | None => None end.
 
 Fixpoint and_sem (vals : list (option json)) : option json :=
   match vals with
@@ -98,52 +76,60 @@ Definition cmp_sem (test : comparison -> bool) (vals : list (option json)) : opt
   | _, _ => None
   end.
 
-Definition pure_sem (f : fn) (vals : list (option json)) : option json :=
+Definition core_sem (f : fn) (vals : list (option json)) : option json :=
   match f with
-  | FGet =>
+  | F_get =>
       match arg vals 0%nat with
       | Some (JObj m) => match arg vals 1%nat with Some (JStr k) => obj_get k m | _ => None end
       | Some (JArr l) => match usize_of (arg vals 1%nat) with Some i => nth_error l (N.to_nat i) | None => None end
       | _ => None
       end
-  | FSize =>
+  | F_size =>
       match arg vals 0%nat with
       | Some (JObj m) => Some (jnat (length m))
       | Some (JArr l) => Some (jnat (length l))
       | Some (JStr s) => Some (jnat (length s))
       | _ => None
       end
-  | FIf =>
+  | F_if =>
       match arg vals 0%nat with
       | Some (JBool true) => arg vals 1%nat
       | Some (JBool false) => arg vals 2%nat
       | _ => None
       end
-  | FDefault => default_sem vals
-  | FEq => match arg vals 0%nat, arg vals 1%nat with Some a, Some b => Some (JBool (jeqb a b)) | _, _ => None end
-  | FNeq => match arg vals 0%nat, arg vals 1%nat with Some a, Some b => Some (JBool (negb (jeqb a b))) | _, _ => None end
-  | FLt => cmp_sem (fun c => match c with Lt => true | _ => false end) vals
-  | FLte => cmp_sem (fun c => match c with Gt => false | _ => true end) vals
-  | FGt => cmp_sem (fun c => match c with Gt => true | _ => false end) vals
-  | FGte => cmp_sem (fun c => match c with Lt => false | _ => true end) vals
-  | FAnd => and_sem vals
-  | FOr => or_sem vals
-  | FNot => match arg vals 0%nat with Some (JBool b) => Some (JBool (negb b)) | _ => None end
-  | FXor => match arg vals 0%nat, arg vals 1%nat with
+  | F_default => default_sem vals
+  | F_eq => match arg vals 0%nat, arg vals 1%nat with Some a, Some b => Some (JBool (jeqb a b)) | _, _ => None end
+  | F_neq => match arg vals 0%nat, arg vals 1%nat with Some a, Some b => Some (JBool (negb (jeqb a b))) | _, _ => None end
+  | F_lt => cmp_sem (fun c => match c with Lt => true | _ => false end) vals
+  | F_lte => cmp_sem (fun c => match c with Gt => false | _ => true end) vals
+  | F_gt => cmp_sem (fun c => match c with Gt => true | _ => false end) vals
+  | F_gte => cmp_sem (fun c => match c with Lt => false | _ => true end) vals
+  | F_and => and_sem vals
+  | F_or => or_sem vals
+  | F_not => match arg vals 0%nat with Some (JBool b) => Some (JBool (negb b)) | _ => None end
+  | F_xor => match arg vals 0%nat, arg vals 1%nat with
             | Some (JBool a), Some (JBool b) => Some (JBool (xorb a b)) | _, _ => None end
   | _ => None
   end.
 
-(* stable insertion sort by a comparison (slice::sort_by is a stable sort) *)
-Section Sort.
-Context {A : Type} (cmp : A -> A -> comparison).
-Fixpoint sinsert (x : A) (l : list A) : list A :=
-  match l with
-  | [] => [x]
-  | y :: t => match cmp y x with Gt => x :: l | _ => y :: sinsert x t end
+
+Definition core_fn (f : fn) : bool :=
+  match f with
+  | F_get | F_size | F_if | F_default | F_eq | F_neq | F_lt | F_lte | F_gt | F_gte
+  | F_and | F_or | F_not | F_xor => true
+  | _ => false
   end.
-Definition ssort (l : list A) : list A := fold_left (fun acc x => sinsert x acc) l [].
-End Sort.
+
+(* Some r: the function is modelled and yields r; None: not modelled (opaque) *)
+Definition pure_sem (f : fn) (vals : list (option json)) : option (option json) :=
+  if core_fn f then Some (core_sem f vals) else
+  match sem_coll f vals with
+  | Some r => Some r
+  | None => match sem_num f vals with
+            | Some r => Some r
+            | None => sem_nas f vals
+            end
+  end.
 
 Fixpoint all_vals (os : list outcome) : option (list (option json)) :=
   match os with
@@ -164,7 +150,7 @@ Definition key_index : str := [105; 110; 100; 101; 120].
 
 (* an opaque function: its value is some function of its argument values *)
 Section Eval.
-Variable opaque : str -> list (option json) -> option json.
+Variable opaque : fn -> list (option json) -> option json.
 
 (* mf bounds macro expansion depth only; everything else is structural in the expression *)
 Fixpoint eval (mf : nat) : expr -> ctx -> outcome :=
@@ -191,7 +177,7 @@ Fixpoint eval (mf : nat) : expr -> ctx -> outcome :=
         end
     | ECall f args => fun c =>
         match f with
-        | FPipe =>
+        | F_pipe =>
             (fix pipe (l : list expr) (c : ctx) : outcome :=
                match l with
                | [] => Val (Some (input c))
@@ -201,19 +187,19 @@ Fixpoint eval (mf : nat) : expr -> ctx -> outcome :=
                            | OutOfFuel => OutOfFuel
                            end
                end) args (with_input c (input c))
-        | FSet =>
+        | F_set =>
             match ev_arg args 0%nat c, ev_arg args 1%nat c with
             | Val (Some (JStr name)), Val (Some v) => ev_arg args 2%nat (with_variable c name v)
             | OutOfFuel, _ | _, OutOfFuel => OutOfFuel
             | _, _ => Val None
             end
-        | FDefine =>
+        | F_define =>
             match ev_arg args 0%nat c, nth_error args 1%nat with
             | Val (Some (JStr name)), Some d => ev_arg args 2%nat (with_definition c name d)
             | OutOfFuel, _ => OutOfFuel
             | _, _ => Val None
             end
-        | FAt =>
+        | F_at =>
             match ev_arg args 0%nat c with
             | Val (Some (JStr name)) =>
                 match get_definition c name with
@@ -223,13 +209,13 @@ Fixpoint eval (mf : nat) : expr -> ctx -> outcome :=
             | OutOfFuel => OutOfFuel
             | _ => Val None
             end
-        | FColon =>
+        | F_colon =>
             match ev_arg args 0%nat c with
             | Val (Some (JStr name)) => Val (get_variable c name)
             | OutOfFuel => OutOfFuel
             | _ => Val None
             end
-        | FMap | FFilter | FFlatMap | FGroupBy | FSortBy =>
+        | F_map | F_filter | F_flat_map | F_group_by | F_sort_by =>
             match ev_arg args 0%nat c with
             | Val (Some (JArr l)) =>
                 match all_vals (map (fun v => ev_arg args 1%nat (with_input c v)) l) with
@@ -237,24 +223,24 @@ Fixpoint eval (mf : nat) : expr -> ctx -> outcome :=
                 | Some rs =>
                     let prs := combine l rs in
                     match f with
-                    | FMap => Val (Some (JArr (flat_map (fun r => match r with Some x => [x] | None => [] end) rs)))
-                    | FFilter => Val (Some (JArr (map fst (filter (fun p => match snd p with Some (JBool true) => true | _ => false end) prs))))
-                    | FFlatMap => Val (Some (JArr (flat_map (fun r => match r with Some (JArr x) => x | _ => [] end) rs)))
-                    | FGroupBy =>
+                    | F_map => Val (Some (JArr (flat_map (fun r => match r with Some x => [x] | None => [] end) rs)))
+                    | F_filter => Val (Some (JArr (map fst (filter (fun p => match snd p with Some (JBool true) => true | _ => false end) prs))))
+                    | F_flat_map => Val (Some (JArr (flat_map (fun r => match r with Some (JArr x) => x | _ => [] end) rs)))
+                    | F_group_by =>
                         (fix grp (prs : list (json * option json)) (acc : list (str * list json)) : outcome :=
                            match prs with
                            | [] => Val (Some (JObj (map (fun kl => (fst kl, JArr (snd kl))) acc)))
                            | (item, Some (JStr k)) :: t => grp t (group_push_v k item acc)
                            | _ => Val None
                            end) prs []
-                    | _ (* FSortBy *) =>
+                    | _ (* F_sort_by *) =>
                         Val (Some (JArr (map fst (ssort (fun a b => ojcmp (snd a) (snd b)) prs))))
                     end
                 end
             | OutOfFuel => OutOfFuel
             | _ => Val None
             end
-        | FFold =>
+        | F_fold =>
             match ev_arg args 0%nat c with
             | Val (Some (JArr l)) =>
                 let has_init := Nat.ltb 2 (length args) in
@@ -277,21 +263,16 @@ Fixpoint eval (mf : nat) : expr -> ctx -> outcome :=
             | OutOfFuel => OutOfFuel
             | _ => Val None
             end
-        | FOpaque name =>
-            match all_vals (evs args c) with
-            | Some vals => Val (opaque name vals)
-            | None => OutOfFuel
-            end
         | _ =>
             match all_vals (evs args c) with
-            | Some vals => Val (pure_sem f vals)
+            | Some vals => Val (match pure_sem f vals with Some r => r | None => opaque f vals end)
             | None => OutOfFuel
             end
         end
     end.
 End Eval.
 
-Definition no_opaque (_ : str) (_ : list (option json)) : option json := None.
+Definition no_opaque (_ : fn) (_ : list (option json)) : option json := None.
 Definition macro_fuel : nat := 200.
 Definition get (e : expr) (c : ctx) : option json :=
   match eval no_opaque macro_fuel e c with Val v => v | OutOfFuel => None end.
